@@ -786,3 +786,111 @@ _c13_base3 = contracts
 
 def contracts():
     return _c13_base3() + [cls_parameters_contract(), get_value_generator_dynamic_contract()]
+
+
+# ======================================================================================
+# ParameterizedMetaclass.get_param_descriptor — the Parameter a class-level assignment goes through
+# is the one attribute access resolves: the nearest class in the MRO that declares one
+# ======================================================================================
+def get_param_descriptor_contract():
+    """For an ARBITRARY class list (`classlist(mcs)`: base first, the class itself last — A-DESCR: the
+    reversed MRO), arbitrary class dictionaries and an arbitrary name: the result is (P, c) with c the LAST
+    class of the list whose dictionary holds a Parameter under the name and P that Parameter; (None, None)
+    when no class declares one."""
+    from pyvc import builtins_lib as bl
+    from pyvc.loops import LoopSpec
+    from pyvc.objects import sym_field
+    from pyvc.lib_misc import reversed_of
+    holder = {}
+    lookup = z3.Function("classdict_get", vm.V, vm.V, vm.V)     # d.get(name): the entry, None when absent
+    QUAL = "ParameterizedMetaclass.get_param_descriptor"
+
+    def configure(I):
+        I.sym_fields = {"__dict__"}
+
+        def classlist(I, st, fv, args, kwargs, ctx):
+            return [(st, Sym(holder["mro"]))]
+        I.contracts["classlist"] = classlist
+        prev_vm = I.lib.get("$value_method")
+
+        def vmethod(I, st, name, selfv, args, kwargs, ctx):
+            if name == "get" and isinstance(selfv, Sym) and len(args) == 1 and not kwargs:
+                r = lookup(I.term(selfv), I.term(args[0]))
+                I.U.well_typed(r)
+                return [(st, Sym(r))]
+            return prev_vm(I, st, name, selfv, args, kwargs, ctx) if prev_vm is not None else None
+        I.lib["$value_method"] = vmethod
+
+    def is_param(I, st, t):
+        f = bl.isinstance_formula(I, st, Sym(t), ClsV("Parameter"))
+        return z3.BoolVal(f) if isinstance(f, bool) else f
+
+    def entry(I, st, c):
+        return lookup(z3.Select(holder["Fd"], c), holder["name"])
+
+    def declares(I, st, c):
+        return is_param(I, st, entry(I, st, c))
+
+    def setup(I, st):
+        U = I.U
+        mcs = I.alloc_obj(st, "ParameterizedMetaclass", lazy=True, label="mcs")
+        mro = U.fresh("classlist")
+        st.pc += [vm.ty(mro) == vm.TAG["tuple"], vm.tlen(mro) >= 1]
+        U.well_typed(mro)
+        name = Sym(U.fresh("param_name"))
+        st.pc.append(vm.ty(name.t) == vm.TAG["str"])
+        holder.update({"mro": mro, "name": name.t, "Fd": sym_field(I, st, "__dict__")})
+        n = vm.tlen(mro)
+        lq = U.fresh_int("last_declaring")
+        holder["lq"] = lq
+        nolater = S.fold(I, "no_later_class_declares", lambda x, i: z3.Implies(i > lq, z3.Not(declares(I, st, x))), indexed=True)
+        noearlier = S.fold(I, "not_declared_by", lambda x: z3.Not(declares(I, st, x)))
+        holder.update({"nolater": nolater, "noearlier": noearlier})
+        st.pc.append(z3.And(nolater.tfn(mro, n), z3.Or(lq == -1, z3.And(lq >= 0, lq < n, declares(I, st, vm.titem(mro, lq))))))
+        U.well_typed(vm.titem(mro, lq))
+        fv = I.bound_method(mcs, I.src.find_method("ParameterizedMetaclass", "get_param_descriptor"))
+        return fv, [name], {}, {"symbols": {}}
+
+    def inv(I, st, pre):
+        return pre.all(holder["noearlier"])
+
+    def facts(I, st, x, i):
+        mro, lq = holder["mro"], holder["lq"]
+        n = vm.tlen(mro)
+        r = reversed_of(mro)
+        return [holder["nolater"].elim(mro, n, n - 1 - i),           # the class at hand is class n-1-i of the list
+                holder["noearlier"].elim(r, i, n - 1 - lq),           # the classes already passed do not declare
+                vm.titem(r, i) == vm.titem(mro, n - 1 - i),
+                z3.Implies(z3.And(lq >= 0, lq < n), vm.titem(r, n - 1 - lq) == vm.titem(mro, lq))]
+
+    def post(I, info, st, oc):
+        if isinstance(oc, Raise):
+            return [("does-not-raise", z3.BoolVal(False))]
+        if not (isinstance(oc, TupV) and len(oc.items) == 2):
+            return [("returns a pair", z3.BoolVal(False))]
+        a, c = oc.items
+        mro, lq = holder["mro"], holder["lq"]
+        n = vm.tlen(mro)
+        if isinstance(a, Conc) and a.py is None:
+            r = reversed_of(mro)
+            hyp = z3.And(holder["noearlier"].elim(r, n, n - 1 - lq),
+                         z3.Implies(z3.And(lq >= 0, lq < n), vm.titem(r, n - 1 - lq) == vm.titem(mro, lq)))
+            return [("(None, None) only when no class of the list declares a Parameter under the name", z3.Implies(hyp, lq == -1)),
+                    ("… and then the class is None as well", z3.BoolVal(isinstance(c, Conc) and c.py is None))]
+        want_c = vm.titem(mro, lq)
+        return [("the class returned is the nearest one (last in the class list) that declares a Parameter under the name",
+                 z3.And(lq >= 0, I.term(c) == want_c)),
+                ("the Parameter returned is that class's own entry", I.term(a) == entry(I, st, want_c))]
+    loops = {(QUAL, "classes[::-1]"): LoopSpec("classes[::-1]", inv=inv, name="nearest-class-first", elem_facts=facts)}
+    c = FunctionContract("%s:%s" % (MOD, QUAL), PROP, setup, post, configure=configure, loops=loops,
+                         name="ParameterizedMetaclass.get_param_descriptor[arbitrary hierarchy]")
+    c.static_replay = SETATTR_REPLAY
+    c.static_witness = "diamond hierarchies in which only the later branch re-declares the Parameter"
+    return c
+
+
+_c13_base_gpd = contracts
+
+
+def contracts():
+    return _c13_base_gpd() + [get_param_descriptor_contract()]
